@@ -33,8 +33,6 @@ Theorem C06_validators_no_unknown_name_argument :
   (forall vm a, In vm vfs_methods -> In a (m_names vm) -> lookup_req (m_name vm) a <> None) /\
   (forall vm a, In vm pt_methods -> In a (m_names vm) -> lookup_req (m_name vm) a <> None).
 Proof. exact validators_no_unknown_name_args. Qed.
-Theorem C06_helper_shapes : shapes_ok = true.
-Proof. exact shapes_all_ok. Qed.
 
 (* unsafe names are rejected with EINVAL and nothing happens *)
 Theorem C06_lookup_rejects_slash : forall cf s parent n, In 47 n ->
@@ -102,7 +100,6 @@ Print Assumptions C06_dotdot_root_name.
 Print Assumptions C06_validators_vfs.
 Print Assumptions C06_validators_passthrough.
 Print Assumptions C06_validators_no_unknown_name_argument.
-Print Assumptions C06_helper_shapes.
 Print Assumptions C06_lookup_rejects_slash.
 Print Assumptions C06_mutators_reject_unsafe.
 Print Assumptions C06_vfs_first.
